@@ -30,6 +30,8 @@ def create_sites(ctx: Ctx, funcs=None) -> List[Tuple[Node, Optional[ast.expr], O
     out = []
     for n in ctx.distinct_sites(ctx.all_nodes(lambda n: ctx.is_ext_call(n, *CREATE_TASK), funcs)):
         arg = coro_arg(n.ast)
+        if arg is not None:
+            arg = ctx.vals.resolve(n.func, arg)  # `coro = self._spawner(...); create_task(coro)`
         targets = None
         if isinstance(arg, ast.Call):
             cal = ctx.an.scope(n.func).callee(arg)
@@ -68,8 +70,8 @@ def r_acquire_dominates_create(ctx: Ctx, rule="R01.1"):
     sites = wrapper_sites(ctx)
     rep.floor(rule, "create_task(_task_wrapper(...)) sites", len(sites), 1)
     for site in sites:
-        g = ctx.an.cfg(site.func)
-        acq = slot_acquires(ctx, site.func)
+        g = ctx.an.cfg(site.root)
+        acq = slot_acquires(ctx, site.root)
         ok = bool(acq) and all(dominated_by_completion(g, acq, s) for s in g.nodes if s.ast is site.ast and s.op == site.op and s.pred)
         rep.ob(rule, "pool task creation is dominated by a completed slot acquire", ok, node=site,
                detail="" if ok else f"acquire steps in {site.func.short}: {[a.where() for a in acq]}; some path reaches the creation without completing one")
@@ -117,21 +119,27 @@ def r_who_create_task(ctx: Ctx, rule="R01.2"):
 
 
 def r_user_coroutine_uses(ctx: Ctx, rule: str):
-    """Every use of a coroutine obtained from user code goes to `_start_task`, `.close()` or a log call."""
+    """Every use of a coroutine obtained from user code goes to `_start_task`, `.close()` or a log call (followed into
+    helpers that are spliced into the spawner)."""
+    from ..cfg import bind_args
+
     rep = ctx.rep
-    uses = 0
-    for f in ctx.pool_functions():
+    uses = [0]
+    done: Set[Tuple[str, frozenset]] = set()
+
+    def check(f: FuncInfo, uv: Set[str]) -> None:
+        key = (f.qual, frozenset(uv))
+        if key in done or not uv:
+            return
+        done.add(key)
         sc = ctx.an.scope(f)
-        uv = [name for name in sc.defs if (sc.name_ty(name) is not None and sc.name_ty(name).head in ("UserValue", "internals.helpers._R"))]
-        if not uv:
-            continue
         parents: Dict[int, ast.AST] = {}
         for node in sc._own_nodes():
             for ch in ast.iter_child_nodes(node):
                 parents[id(ch)] = node
         for node in sc._own_nodes():
             if isinstance(node, ast.Name) and node.id in uv and isinstance(node.ctx, ast.Load):
-                uses += 1
+                uses[0] += 1
                 par = parents.get(id(node))
                 ok = False
                 what = ""
@@ -143,6 +151,12 @@ def r_user_coroutine_uses(ctx: Ctx, rule: str):
                             ok = True
                         elif cal.kind == "ext" and (cal.name.startswith("Logger.") or cal.name in ("builtins.repr", "builtins.str", "builtins.id")):
                             ok = True
+                        elif id(call) in ctx.an.spliced_at:
+                            t = ctx.an.spliced_at[id(call)]
+                            bound = {pn for pn, (_, arg, _e) in bind_args(call, t, f, None).items() if arg is node}
+                            if bound:
+                                check(t, bound)
+                                ok = True
                         what = cal.name
                 elif isinstance(par, ast.Attribute) and par.attr == "close":
                     ok = True
@@ -156,7 +170,11 @@ def r_user_coroutine_uses(ctx: Ctx, rule: str):
                            detail=f"flows into {what or type(par).__name__}")
                 else:
                     rep.ob(rule, "user coroutine flows only into _start_task / close()", True, func=f, construct=par)
-    rep.floor(rule, "uses of user coroutines in spawners", uses, 3)
+
+    for f in ctx.pool_functions():
+        sc = ctx.an.scope(f)
+        check(f, {name for name in sc.defs if (sc.name_ty(name) is not None and sc.name_ty(name).head in ("UserValue", "internals.helpers._R"))})
+    rep.floor(rule, "uses of user coroutines in spawners", uses[0], 3)
 
 
 def release_pred(ctx: Ctx):
@@ -210,6 +228,7 @@ def slot_balance(ctx: Ctx, f: FuncInfo):
                 ai.event(n, "releases a pool slot this invocation does not own (none acquired, or already handed to the created task)", st)
         if normal and n.op == "call" and ctx.is_ext_call(n, *CREATE_TASK):
             arg = coro_arg(n.ast)
+            arg = ctx.vals.resolve(n.func, arg) if arg is not None else None
             if isinstance(arg, ast.Call) and any(t.name == "_task_wrapper" for t in ctx.an.scope(n.func).callee(arg).targets):
                 handed = True
         return [(held, handed)]
@@ -312,7 +331,8 @@ def r_handoff(ctx: Ctx, rule="R02.1"):
             continue
         # is the release inside the new task's body?
         arg = coro_arg(site.ast)
-        cal = ctx.an.scope(f).callee(arg) if isinstance(arg, ast.Call) else None
+        arg = ctx.vals.resolve(site.func, arg) if arg is not None else None
+        cal = ctx.an.scope(site.func).callee(arg) if isinstance(arg, ast.Call) else None
         in_body = False
         if cal is not None and cal.kind == "pkg":
             for t in cal.targets:
@@ -421,7 +441,7 @@ def forgetting_impls(ctx: Ctx, name: str) -> List[FuncInfo]:
             continue
         seen.add(f.qual)
         out.append(f)
-        for n in ctx.nodes(f, lambda n: n.op == "await" and n.awaited is not None and n.awaited.kind == "pkg"):
+        for n in ctx.nodes(f, lambda n: n.op == "await" and n.awaited is not None and n.awaited.kind == "pkg" and n.inlined is None):
             for t in n.awaited.targets:
                 if ctx.in_pool(t) and t.name not in ("flush", "gather_and_close", "_task_wrapper", "_start_task") and \
                         any(e.kind in ("clear", "remove", "assign") and field_of(e.path) in ("_tasks_ended", "_tasks_cancelled") for e in ctx.func_trans_effects(t)):
@@ -433,18 +453,18 @@ def _removal_is_snapshot_keyed(ctx: Ctx, f: FuncInfo, r: Node, eff, susp_before:
     """True: keyed by a pre-suspension snapshot / per-element done() guard; False: bulk clear/rebind; None: unknown shape."""
     if eff.kind == "clear":
         return False
-    sc = ctx.an.scope(f)
+    sc = ctx.an.scope(r.func)
     if eff.kind == "assign":
         # rebuild by filtering: self._tasks_ended = {k: v for k, v in self._tasks_ended.items() if k not in snapshot / not v.done()}
         val = _assigned_value(ctx, f, r, eff)
         if isinstance(val, (ast.DictComp,)) and val.generators and val.generators[0].ifs:
-            src = ctx.eff.paths(f).of(val.generators[0].iter)
+            src = ctx.path_at(r, val.generators[0].iter)
             if src == eff.path:
                 cond = ast.unparse(val.generators[0].ifs[0])
                 if ".done()" in cond:
                     return True
                 names = [n.id for n in ast.walk(val.generators[0].ifs[0]) if isinstance(n, ast.Name)]
-                if any(_defined_before(ctx, f, nm, susp_before) for nm in names):
+                if any(_defined_before(ctx, f, nm, susp_before, r.func) for nm in names):
                     return True
             return None
         if isinstance(val, (ast.Dict, ast.Call)) and not (isinstance(val, ast.Dict) and val.keys):
@@ -467,27 +487,91 @@ def _removal_is_snapshot_keyed(ctx: Ctx, f: FuncInfo, r: Node, eff, susp_before:
         # guarded per element by done()?
         return None
     # sources of the iteration: local snapshots and/or live registries
+    frame, fenv, it = _caller_frame(ctx, r.func, r.env, it)
+    sc = ctx.an.scope(frame)
     live, locals_ = [], []
     for sub in ast.walk(it):
         if isinstance(sub, ast.Attribute):
-            p = ctx.eff.paths(f).of(sub)
+            p = ctx.eff.paths(frame).of(sub)
+            p = ctx.eff.rebase(p, frame, fenv) if p is not None else None
             if p is not None and p.count(".") == 1 and field_of(p) in ("_tasks_ended", "_tasks_cancelled", "_tasks_running"):
                 live.append(p)
         elif isinstance(sub, ast.Name) and sub.id in sc.defs and sub.id != sc.selfname:
             locals_.append(sub.id)
     if live:
         # iterating the live registry (or a copy made after the suspension): per-element guard required
-        guard = _enclosing_if_texts(f, r)
+        guard = _enclosing_if_texts(r.func, r)
         if any(".done()" in t for t in guard):
             return True
         return False
     if locals_:
-        verdicts = [_snapshot_gathered(ctx, f, r, nm, eff) for nm in locals_]
+        verdicts = [_snapshot_gathered(ctx, f, r, nm, eff, frame, fenv) for nm in locals_]
         if all(v is True for v in verdicts):
             return True
         if any(v is False for v in verdicts):
             return False
     return None
+
+
+_GROWERS = ("update", "add", "extend", "append", "insert", "setdefault", "__setitem__")
+
+
+def _is_grower(x: ast.AST, name: str) -> Optional[List[ast.AST]]:
+    """If statement/expression x adds to local collection `name`, the expressions it adds from."""
+    if isinstance(x, ast.Call) and isinstance(x.func, ast.Attribute) and isinstance(x.func.value, ast.Name) and x.func.value.id == name and x.func.attr in _GROWERS:
+        return list(x.args) + [k.value for k in x.keywords]
+    if isinstance(x, ast.AugAssign) and isinstance(x.target, ast.Name) and x.target.id == name:
+        return [x.value]
+    if isinstance(x, ast.Assign) and any(isinstance(t, ast.Subscript) and isinstance(t.value, ast.Name) and t.value.id == name for t in x.targets):
+        return [x.value]
+    return None
+
+
+def _local_sources(ctx: Ctx, frame: FuncInfo, fenv, name: str) -> Set[str]:
+    """Registry paths whose content flows into local collection `name` of `frame` (bindings and in-place growth)."""
+    sc = ctx.an.scope(frame)
+    exprs: List[ast.AST] = []
+    for h in sc.defs.get(name, []):
+        v = h[1] if h[0] == "assign" else (h[2] if h[0] == "ann" else None)
+        if v is not None:
+            exprs.append(v)
+        if h[0] == "elt":
+            src = h[1][1] if len(h[1]) > 1 else None
+            if src is not None:
+                exprs.append(src)
+    for x in sc._own_nodes():
+        g = _is_grower(x, name)
+        if g:
+            exprs += g
+    out: Set[str] = set()
+    from ..cfg import bind_args
+
+    def collect(fr: FuncInfo, env, v: ast.AST, depth: int = 0) -> None:
+        for x in ast.walk(v):
+            if isinstance(x, ast.Attribute):
+                p = ctx.eff.paths(fr).of(x)
+                if p is not None:
+                    out.add(ctx.eff.rebase(p, fr, env))
+            elif isinstance(x, ast.Call) and id(x) in ctx.an.spliced_at and depth < 4:
+                # what a spliced helper returns
+                t = ctx.an.spliced_at[id(x)]
+                sub = bind_args(x, t, fr, env)
+                for r in ctx.an.scope(t)._own_nodes():
+                    if isinstance(r, ast.Return) and r.value is not None:
+                        collect(t, sub, r.value, depth + 1)
+                        if isinstance(r.value, ast.Name) and r.value.id in ctx.an.scope(t).defs:
+                            out.update(_local_sources(ctx, t, sub, r.value.id))
+
+    for v in exprs:
+        collect(frame, fenv, v)
+    return out
+
+
+def _caller_frame(ctx: Ctx, frame: FuncInfo, fenv, e: ast.AST):
+    """A parameter of a spliced helper stands for the caller's argument: (frame, env, expression) in the caller's terms."""
+    while isinstance(e, ast.Name) and fenv and e.id in fenv and e.id in ctx.an.scope(frame).params and not ctx.an.scope(frame).defs.get(e.id):
+        frame, e, fenv = fenv[e.id]
+    return frame, fenv, e
 
 
 def _assigned_value(ctx: Ctx, f: FuncInfo, r: Node, eff) -> Optional[ast.AST]:
@@ -498,7 +582,7 @@ def _assigned_value(ctx: Ctx, f: FuncInfo, r: Node, eff) -> Optional[ast.AST]:
     for t in targets:
         if isinstance(t, (ast.Tuple, ast.List)) and isinstance(val, (ast.Tuple, ast.List)) and len(t.elts) == len(val.elts):
             for te, ve in zip(t.elts, val.elts):
-                if ctx.eff.paths(f).of(te) == eff.path:
+                if ctx.path_at(r, te) == eff.path:
                     return ve
     return val
 
@@ -506,25 +590,23 @@ def _assigned_value(ctx: Ctx, f: FuncInfo, r: Node, eff) -> Optional[ast.AST]:
 def _forgotten_were_gathered(ctx: Ctx, f: FuncInfo, copies: List[Node], eff) -> bool:
     g = ctx.an.cfg(f)
     gathers = [n for n in g.nodes if n.pred and n.op == "await" and n.awaited is not None and n.awaited.kind == "ext" and n.awaited.name in GATHER]
-    sc = ctx.an.scope(f)
-    P = ctx.eff.paths(f)
-
     def covers(G: Node) -> bool:
         call = strip_cast(G.ast.value)
+        sc = ctx.an.scope(G.func)
+
+        class _P:
+            @staticmethod
+            def of(x):
+                return ctx.path_at(G, x)
+        P = _P
         for a in call.args:
             p = P.of(a)
             if p == eff.path:
                 return True
             # a local snapshot built from the registry
             for nm in [x.id for x in ast.walk(a) if isinstance(x, ast.Name)]:
-                for h in sc.defs.get(nm, []):
-                    v = h[1] if h[0] == "assign" else (h[2] if h[0] == "ann" else None)
-                    if v is not None and any(P.of(x) == eff.path for x in ast.walk(v) if isinstance(x, ast.Attribute)):
-                        return True
-                    if h[0] == "elt":
-                        src = h[1][1] if len(h[1]) > 1 else None
-                        if src is not None and any(P.of(x) == eff.path for x in ast.walk(src) if isinstance(x, ast.Attribute)):
-                            return True
+                if nm in sc.defs and eff.path in _local_sources(ctx, G.func, G.env, nm):
+                    return True
         return False
 
     good = [G for G in gathers if covers(G)]
@@ -533,20 +615,24 @@ def _forgotten_were_gathered(ctx: Ctx, f: FuncInfo, copies: List[Node], eff) -> 
     return all(dominated_by_completion(g, good, c) for c in copies)
 
 
-def _snapshot_gathered(ctx: Ctx, f: FuncInfo, r: Node, name: str, eff) -> Optional[bool]:
+def _snapshot_gathered(ctx: Ctx, f: FuncInfo, r: Node, name: str, eff, frame: Optional[FuncInfo] = None, fenv=None) -> Optional[bool]:
     """The ids removed come from local snapshot `name`; its tasks must have been awaited between the
     snapshot and the removal (forget <= gathered), or the snapshot and the awaited set are taken in one atomic segment."""
     g = ctx.an.cfg(f)
-    defs = [n for n in g.nodes if n.op == "assign" and n.pred and any(isinstance(t, ast.Name) and t.id == name for t in (n.ast.targets if isinstance(n.ast, ast.Assign) else [n.ast.target]))]
+    if frame is None:
+        frame, fenv = r.func, r.env
+    defs = [n for n in g.nodes if n.op == "assign" and n.pred and n.func is frame and n.env is fenv and any(isinstance(t, ast.Name) and t.id == name for t in (n.ast.targets if isinstance(n.ast, ast.Assign) else [n.ast.target]))]
     if not defs:
         return None
+    # steps that add to the snapshot in place count as (re)definitions: they too must precede the wait
+    defs += [n for n in g.nodes if n.pred and n.func is frame and n.env is fenv and n.op in ("call", "aug", "assign") and _is_grower(n.ast, name)]
     gathers = [n for n in g.nodes if n.pred and n.op == "await" and n.awaited is not None and n.awaited.kind == "ext" and n.awaited.name in GATHER]
     for G in gathers:
         if not dominated_by_completion(g, [G], r):
             continue
         call = strip_cast(G.ast.value)
-        mentions_snapshot = any(isinstance(x, ast.Name) and x.id == name for x in ast.walk(call))
-        arg_paths = {ctx.eff.paths(f).of(a) for a in call.args}
+        mentions_snapshot = G.func is frame and G.env is fenv and any(isinstance(x, ast.Name) and x.id == name for x in ast.walk(call))
+        arg_paths = {ctx.path_at(G, a) for a in call.args}
         ok_all = True
         for d in defs:
             if not can_follow(d, G):
@@ -563,10 +649,10 @@ def _snapshot_gathered(ctx: Ctx, f: FuncInfo, r: Node, name: str, eff) -> Option
     return False
 
 
-def _defined_before(ctx: Ctx, f: FuncInfo, name: str, susp: List[Node]) -> bool:
+def _defined_before(ctx: Ctx, f: FuncInfo, name: str, susp: List[Node], frame: Optional[FuncInfo] = None) -> bool:
     """Is every definition of local `name` executed before every suspension in `susp` (i.e. no suspension can precede it)?"""
     g = ctx.an.cfg(f)
-    defs = [n for n in g.nodes if n.op == "assign" and n.pred and any(isinstance(t, ast.Name) and t.id == name for t in (n.ast.targets if isinstance(n.ast, ast.Assign) else [n.ast.target]))]
+    defs = [n for n in g.nodes if n.op == "assign" and n.pred and (frame is None or n.func is frame) and any(isinstance(t, ast.Name) and t.id == name for t in (n.ast.targets if isinstance(n.ast, ast.Assign) else [n.ast.target]))]
     if not defs:
         return False
     for d in defs:
@@ -918,41 +1004,58 @@ def r_execute_optional(ctx: Ctx, rule="R03.6"):
     ucalls = ctx.nodes(f, lambda n: n.op == "call" and n.callee is not None and n.callee.kind == "user" and isinstance(n.ast.func, ast.Name) and n.ast.func.id == fn)
     rep.floor(rule, "calls of the optional function", len(ctx.distinct_sites(ucalls)), 1)
 
+    V = ctx.vals
+
     def mentions(e: ast.AST, name: str) -> bool:
-        return any(isinstance(c, ast.Call) and isinstance(c.func, ast.Name) and c.func.id == name and c.args and isinstance(c.args[0], ast.Name) and c.args[0].id == fn
-                   for c in ast.walk(e))
+        # the test itself, or the once-bound local flag it reads (`must_await = iscoroutinefunction(function)`)
+        inner = e.operand if isinstance(e, ast.UnaryOp) and isinstance(e.op, ast.Not) else e
+        inner = V.resolve(f, inner)
+        return any(isinstance(c, ast.Call) and isinstance(c.func, ast.Name) and c.func.id == name and c.args and V.is_param(f, c.args[0], fn)
+                   for c in ast.walk(inner))
 
-    def not_callable_branch(a: Node, b: Node, lab: Label) -> bool:
-        if a.op == "test" and mentions(a.ast, "callable") and lab[0] in ("T", "F"):
-            neg = isinstance(a.ast, ast.UnaryOp) and isinstance(a.ast.op, ast.Not)
-            callable_true = "F" if neg else "T"
-            return lab[0] == callable_true
-        return True
+    def guard_branch(name: str, want: bool):
+        """Edge filter keeping only the branch on which `name(function)` is `want`."""
+        def ef(a: Node, b: Node, lab: Label) -> bool:
+            if a.op == "test" and lab[0] in ("T", "F") and mentions(a.ast, name):
+                neg = isinstance(a.ast, ast.UnaryOp) and isinstance(a.ast.op, ast.Not)
+                return (lab[0] == "T") == (want != neg)
+            return True
+        return ef
 
-    res = count_paths(ctx.an, f, lambda n: n in ucalls, ef=not_callable_branch, interproc=False)
+    is_callable = guard_branch("callable", True)
+    res = count_paths(ctx.an, f, lambda n: n in ucalls, ef=is_callable, interproc=False)
     ret = res.get(("ret", None), frozenset())
     # a call that raises leaves through an exceptional exit: there the call has begun exactly once as well
     rep.ob(rule, "a callable `function` is called exactly once before execute_optional returns", ret == frozenset({1}), func=f,
            construct="paths with callable(function)", detail=f"call counts on normal return: {sorted(ret)}")
     for u in ctx.distinct_sites(ucalls):
         c: ast.Call = u.ast
-        fwd = any(isinstance(a, ast.Starred) and isinstance(a.value, ast.Name) and a.value.id == pa for a in c.args) and \
-            any(k.arg is None and isinstance(k.value, ast.Name) and k.value.id == pk for k in c.keywords) and len(c.args) == 1 and len(c.keywords) == 1
-        rep.ob(rule, "the function is called with exactly *args, **kwargs", fwd, node=u)
+        fwd_pos = len(c.args) == 1 and isinstance(c.args[0], ast.Starred) and V.is_param(f, c.args[0].value, pa)
+        fwd_kw = False
+        if len(c.keywords) == 1 and c.keywords[0].arg is None:
+            # `kwargs`, or the local standing for `{} if kwargs is None else kwargs`
+            leaves = V.alts(f, c.keywords[0].value)
+            fwd_kw = any(isinstance(x, ast.Name) and x.id == pk for x in leaves) and \
+                all((isinstance(x, ast.Name) and x.id == pk) or (isinstance(x, ast.Dict) and not x.keys) for x in leaves)
+        rep.ob(rule, "the function is called with exactly *args, **kwargs", fwd_pos and fwd_kw, node=u)
     # awaited under the coroutine-function guard
     tests = ctx.nodes(f, lambda n: n.op == "test" and mentions(n.ast, "iscoroutinefunction"))
     if not tests:
         rep.ob(rule, "coroutine functions are recognised (iscoroutinefunction guard)", None, func=f, construct="(no iscoroutinefunction test)")
-    for t in ctx.distinct_sites(tests):
-        neg = isinstance(t.ast, ast.UnaryOp) and isinstance(t.ast.op, ast.Not)
-        lab_true = "F" if neg else "T"
-        starts = [s for s, lab in t.succ if lab[0] == lab_true]
-        region = reach(starts, lambda a, b, lab: lab[0] in NORMAL_KINDS)
-        us = [u for u in ucalls if u in region and not any(u in reach([s for s, lab in t.succ if lab[0] != lab_true], lambda a, b, lab: lab[0] in NORMAL_KINDS) for _ in [0])]
-        for u in us:
-            awaited = any(m.op == "await" and strip_cast(m.ast.value) is u.ast for m in g.nodes)
-            rep.ob(rule, "under the coroutine-function guard the call is awaited (the callback runs to completion)", awaited, node=u)
-        rep.ob(rule, "the coroutine-function branch calls the function", bool(us), node=t)
+        return
+    is_coro = guard_branch("iscoroutinefunction", True)
+
+    def both(a: Node, b: Node, lab: Label) -> bool:
+        return lab[0] in NORMAL_KINDS and is_callable(a, b, lab) and is_coro(a, b, lab)
+
+    live_calls = [u for u in ucalls if u in reach([g.entry], both)]
+    rep.ob(rule, "the coroutine-function branch calls the function", bool(live_calls), node=tests[0])
+    for u in ctx.distinct_sites(live_calls):
+        copies = [x for x in live_calls if x.ast is u.ast]
+        awaits = {m for m in g.nodes if m.op == "await" and V.resolve(f, m.ast.value) is u.ast}
+        # with iscoroutinefunction(function) true, every way from the call to a normal return awaits its result
+        escaped = g.exit in reach(copies, both, avoid=awaits)
+        rep.ob(rule, "under the coroutine-function guard the call is awaited (the callback runs to completion)", bool(awaits) and not escaped, node=u)
 
 
 # ------------------------------------------------------------------ spawner registries
